@@ -49,10 +49,60 @@ theorem chkU_some {x y : Nat} (h : chkU x = some y) : y = x := by
   · injection h with h; exact h.symm
   · cases h
 
+/-- the lift when `r² > n` (tiny `n`): `c = (D − ((r² − n)/D mod D)) mod D` plays the part of `(n − r²)/D mod D` -/
+theorem hensel_neg (n d r i : Nat) (hd : 0 < d) (hr : r * r % d = n % d) (hlt : n < r * r)
+    (hi : 2 * r * i % d = 1 % d) :
+    (r + (d - (r * r - n) / d % d) % d * i % d * d) * (r + (d - (r * r - n) / d % d) % d * i % d * d) % (d * d)
+      = n % (d * d) := by
+  have hdvd : d ∣ r * r - n := (Nat.modEq_iff_dvd' (le_of_lt hlt)).mp (by exact hr.symm)
+  obtain ⟨k, hk⟩ := hdvd
+  have hkd : (r * r - n) / d = k := by rw [hk, Nat.mul_div_cancel_left _ hd]
+  rw [hkd]
+  set c := (d - k % d) % d with hc
+  set h2 := c * i % d with hh2
+  -- c ≡ −k (mod d)
+  have hck : (d : Int) ∣ (c : Int) + k := by
+    have h1 : (c : Int) ≡ (d : Int) - ((k % d : Nat) : Int) [ZMOD d] := by
+      rw [hc]
+      have hle : k % d ≤ d := le_of_lt (Nat.mod_lt _ hd)
+      push_cast [Nat.cast_sub hle]
+      exact Int.mod_modEq _ _
+    have h2' : ((k % d : Nat) : Int) ≡ (k : Int) [ZMOD d] := by push_cast; exact Int.mod_modEq _ _
+    have h3 : (c : Int) ≡ -(k : Int) [ZMOD d] := by
+      calc (c : Int) ≡ (d : Int) - ((k % d : Nat) : Int) [ZMOD d] := h1
+        _ ≡ (d : Int) - k [ZMOD d] := Int.ModEq.sub_left _ h2'
+        _ ≡ -(k : Int) [ZMOD d] := by
+          apply Int.modEq_iff_dvd.mpr; exact ⟨-1, by ring⟩
+    have := Int.modEq_iff_dvd.mp h3.symm
+    simpa [sub_neg_eq_add, add_comm] using this
+  -- 2 r h2 ≡ c (mod d)
+  have h1 : (2 * r * h2) % d = c % d := by
+    have e1 : (2 * r * h2) % d = (2 * r * (c * i)) % d := by
+      rw [hh2, Nat.mul_mod, Nat.mod_mod, ← Nat.mul_mod]
+    have e2 : 2 * r * (c * i) = (2 * r * i) * c := by ring
+    rw [e1, e2, Nat.mul_mod, hi, Nat.mod_mod, ← Nat.mul_mod, one_mul]
+  have hz : ((d * d : Nat) : Int) ∣ ((n : Int) - ((r + h2 * d) * (r + h2 * d) : Nat)) := by
+    have h1' : (d : Int) ∣ (c : Int) - ((2 * r * h2 : Nat) : Int) := by
+      have : ((2 * r * h2 : Nat) : Int) ≡ (c : Int) [ZMOD d] := Int.natCast_modEq_iff.mpr h1
+      exact Int.modEq_iff_dvd.mp this
+    obtain ⟨t, ht⟩ := h1'
+    obtain ⟨u, hu⟩ := hck
+    have hn : (n : Int) = r * r - d * k := by
+      have : r * r = n + d * k := by omega
+      have : ((r * r : Nat) : Int) = n + d * k := by exact_mod_cast this
+      push_cast at this; linarith
+    refine ⟨t - u - h2 * h2, ?_⟩
+    push_cast at ht ⊢
+    rw [hn]
+    linear_combination (d : Int) * ht - (d : Int) * hu
+  have := (Int.modEq_iff_dvd.mpr hz)
+  exact (Int.natCast_modEq_iff.mp this)
+
 /-- what a successful Hensel lift returns -/
 theorem henselB_some {n d r b : Nat} (h : henselB n d r = some b) :
-    0 < d ∧ r * r % d = n % d ∧ r * r ≤ n ∧
-    ∃ i, invMod (2 * r) d = some i ∧ b = r + (n - r * r) / d % d * i % d * d := by
+    0 < d ∧ r * r % d = n % d ∧
+    ∃ i, invMod (2 * r) d = some i ∧
+      b = r + (if r * r ≤ n then (n - r * r) / d % d else (d - (r * r - n) / d % d) % d) * i % d * d := by
   unfold henselB at h
   split at h
   · cases h
@@ -64,20 +114,20 @@ theorem henselB_some {n d r b : Nat} (h : henselB n d r = some b) :
       · cases h
       · rename_i hh hhh
         have := chkU_some hhh; subst this
+        dsimp only at h
         split at h
         · cases h
-        · rename_i hle
-          split at h
-          · cases h
-          · rename_i i hi
-            exact ⟨Nat.pos_of_ne_zero hd, by simpa using hr, by omega, i, hi, chkU_some h⟩
+        · rename_i i hi
+          exact ⟨Nat.pos_of_ne_zero hd, by simpa using hr, i, hi, chkU_some h⟩
 
 /-- `hensel_lift` for the model: the lifted root squares to `n` modulo `D²` -/
 theorem henselB_sq {n d r b : Nat} (h : henselB n d r = some b) : b * b % (d * d) = n % (d * d) := by
-  obtain ⟨hd, hr, hle, i, hi, hb⟩ := henselB_some h
+  obtain ⟨hd, hr, i, hi, hb⟩ := henselB_some h
   obtain ⟨_, hinv, _⟩ := invMod_some hd hi
   rw [hb]
-  exact hensel n d r i hd hr hle hinv
+  by_cases hle : r * r ≤ n
+  · rw [if_pos hle]; exact hensel n d r i hd hr hle hinv
+  · rw [if_neg hle]; exact hensel_neg n d r i hd hr (by omega) hinv
 
 /-- the polynomial of `make_poly` is exact -/
 structure MpqsOk (n : Nat) (pol : Poly) : Prop where
